@@ -626,7 +626,13 @@ class Arbiter:
             util._setproctitle("worker [%s]" % self.proc_name)
             self.log.info("Booting worker with pid: %s", worker.pid)
             if self.cfg.reuse_port:
-                worker.sockets = sock.create_sockets(self.cfg, self.log)
+                try:
+                    worker.sockets = sock.create_sockets(self.cfg, self.log)
+                except SystemExit:
+                    # create_sockets() gives up with sys.exit(1) when an
+                    # address cannot be bound. In the master that stops the
+                    # server; here it is a worker that cannot boot.
+                    sys.exit(self.WORKER_BOOT_ERROR)
             self.cfg.post_fork(self, worker)
             worker.init_process()
             sys.exit(0)
